@@ -693,7 +693,8 @@ def model_stage(chk, prop, bdir, thorough):
     T = 2400 if thorough else 600
     if prop in ("C14", "C16"):
         jobs.append(("RawWriter", "mc_raw", raw_consts(MaxCycles=3 if thorough else 2, MaxFaultAt=10 if thorough else 8,
-                                                       NScripts=7 if thorough else 5), RAW_INV, True))
+                                                       NScripts=7 if thorough else 5, NPaths=4 if thorough else 3,
+                                                       MaxAppends=3 if thorough and prop == "C14" else 2), RAW_INV, True))
         jobs.append(("RawWriter", "asis_raw", raw_consts(FIXED=0, NDev=2, MaxFaultAt=4), RAW_INV, False))
     if prop in ("C15", "C16"):
         if prop == "C15":
